@@ -55,7 +55,7 @@ def check(run, replay=None):
                 "0.1 mm band; runs: generated networks with 1-3 leaks (junctions and tanks), start/end on and off the hydraulic grid, end beyond "
                 "the duration or None, DD and PDD; remove_leak/reset/rerun cycles; non-trivial = a step with an active leak at positive pressure")
     run.trusted += ["translator chains.py", "row dumper (c15.py)", "coq-interval", "tracing wrapper (simrun.Trace)"]
-    run.assumptions += ["binary64 rounding compared at 1e-9 relative + 1e-12", "isolated nodes report 0 leak demand (C09/C01)"]
+    run.assumptions += ["rows: binary64 rounding compared at 1e-9 relative + 1e-12; reported leak demand vs law of the reported pressure: the solver tolerance 2e-6 m3/s", "isolated nodes report 0 leak demand (C09/C01)"]
     errs = regen(["Formulas.v"], common.REPO)
     for e in errs:
         run.tie_broken("translator refused the current source (model is stale)", e)
@@ -164,8 +164,9 @@ def check(run, replay=None):
                     active = False        # isolated junction: zeroed (C09)
                 if abs(p) < 3e-4 and abs(p) > 0:
                     continue
-                add("Rabs (%s - reported_leak %s %s %s %s) <= 1 / 1000000000000 + %s / 100000000" % (
-                    R(ld), "true" if active else "false", R(area), R(cd), R(p), R(cd * area * 40)),
+                # the reported value satisfies the leak row within the solver tolerance (1e-6 m3/s), not exactly
+                add("Rabs (%s - reported_leak %s %s %s %s) <= 2 / 1000000" % (
+                    R(ld), "true" if active else "false", R(area), R(cd), R(p)),
                     dict(desc, check="reported leak demand", time=t, pressure=p, leak_demand=ld, model_active=active), active and p > 0)
         # remove_leak + reset + rerun: the removed leak contributes nothing
         if spec["leaks"] and k % 2 == 0:
